@@ -31,7 +31,7 @@ RULE = ("history cases: one evaluation per run of a simulated history (3 peers, 
         "duplication, re-delivery and batching, then drained); scripts from lib/wfgen.py (streams written from several peers, "
         "stream folds with next in seq / par position and under xor, last instructions, nested stream folds, guarded recursive "
         "appends, new-scoped streams, failing calls inside iterations and par branches with and without xor, canon inside folds) "
-        "and from lib/airgen.py (general profile); distinct = distinct produced traces (content ids abstracted) holding at least "
+        "and from lib/airgen.py (general profile, half of them with stream maps); distinct = distinct produced traces (content ids abstracted) holding at least "
         "one par or fold state. tree cases: one evaluation per round = one driver forest run on the real TraceHandler against "
         "(prev, cur) taken from earlier rounds' results (20% of later rounds with mutated traces, 10% with a different forest); "
         "distinct = distinct (forest, prev, cur) rounds whose result holds a par or a fold")
@@ -43,6 +43,9 @@ PARTIAL = [
     "every stream value entry with generations different from the placeholder (C10_generations); that the executor establishes them "
     "(Streams::compactify covers every value of every stream incl. new-scoped ones; generation counts stay below 0xCAFEBABE) is "
     "checked by the oracle on histories, not proved",
+    "update_generation during a run (Streams::meet_scope_end compacts a new-scoped stream when its scope ends) is a node of the "
+    "driver forests (DGens) and covered by C10_wf_drive / C10_wf_drive_value_pos; a FAILING update is modelled as a no-op (the executor "
+    "aborts the run and produces no trace)",
     "driver forests put `next` of a stream fold in its own body, directly or inside par branches (any nesting); a `next` of an OUTER "
     "stream fold executed inside an inner stream fold's body, or executed twice in one iteration (inside an inner scalar fold), is not "
     "covered by the forests (the validator allows the first syntactically; generators do not produce either)",
@@ -120,8 +123,9 @@ def gen_cases(rng, tier, escalate=False):
     for _ in range(140 * k):
         cases.append(history_case(rng, script=wfgen.gen_script(rng)))
     prof = airgen.Profile()
-    for _ in range(40 * k):
-        cases.append(history_case(rng, script=airgen.gen_script(rng, prof)))
+    prof_maps = airgen.Profile(maps=True)                   # stream maps: folds over %maps iterate Ap entries
+    for i in range(40 * k):
+        cases.append(history_case(rng, script=airgen.gen_script(rng, prof_maps if i % 2 else prof)))
     for _ in range(60 * k):
         cases.append(tree_case(rng))
     for _ in range(3 * k if tier == "thorough" else 0):      # the lock-step cases are ~20x larger: thorough tier only
